@@ -955,3 +955,67 @@ func TestC11Null(t *testing.T) {
 }
 
 func init() { reg("C11.null", checkC11Null) }
+
+// ---- the included name registered again between renders -----------------------------------------------------------
+
+type C11ReregCase struct {
+	Form  int `json:"form"`
+	Route int `json:"route"`
+}
+
+var c11ReregMains = []string{"[{% include 'part' %}]", "[{% include 'part' with {'v': 1} only %}]", "[{% for i in [1, 2] %}{% include 'part' %}{% endfor %}]", "[{% include 'part' ignore missing %}]", "[{% include name %}]", "[{% include 'mid' %}]"}
+
+func checkC11Rereg(c C11ReregCase) error {
+	main := c11ReregMains[c.Form%len(c11ReregMains)]
+	e := newEngine(nil)
+	for n, s := range map[string]string{"main": main, "part": "P1", "mid": "<{% include 'part' %}>"} {
+		if err := e.RegisterString(n, s); err != nil {
+			return fmt.Errorf("harness: %v", err)
+		}
+	}
+	ctx := map[string]interface{}{"name": "part"}
+	want := func(p string) string {
+		out := strings.NewReplacer("{% include 'part' %}", p, "{% include 'part' with {'v': 1} only %}", p, "{% for i in [1, 2] %}", "", "{% endfor %}", "", "{% include 'part' ignore missing %}", p, "{% include name %}", p, "{% include 'mid' %}", "<"+p+">").Replace(main)
+		if c.Form%len(c11ReregMains) == 2 {
+			out = "[" + p + p + "]"
+		}
+		return out
+	}
+	for round, p := range []string{"P1", "P2{{ 1 + 1 }}", "P3"} {
+		if round > 0 {
+			if c.Route%2 == 1 {
+				t, err := e.ParseTemplate(p)
+				if err != nil {
+					return fmt.Errorf("harness: %v", err)
+				}
+				e.RegisterTemplate("part", t)
+			} else if err := e.RegisterString("part", p); err != nil {
+				return fmt.Errorf("harness: %v", err)
+			}
+		}
+		w := want(strings.ReplaceAll(p, "{{ 1 + 1 }}", "2"))
+		for i := 0; i < 2; i++ {
+			if r := render(e, "main", ctx); r.Failed() || r.Out != w {
+				return fmt.Errorf("round %d: 'part' is registered as %s now; %s renders %v, want %s", round, q(p), q(main), r, q(w))
+			}
+		}
+	}
+	return nil
+}
+
+func TestC11Reregister(t *testing.T) {
+	r := NewRec(t, "C11", "exhaustive: 6 includes of one name (plain, with-only, in a loop, ignore missing, computed name, through a second include) x {RegisterString, RegisterTemplate}: the includer is rendered, the included name registered again twice with other content, the includer rendered twice after each; oracle: the content registered now; all cases non-trivial")
+	defer r.Flush()
+	r.SetExhaustive()
+	for form := range c11ReregMains {
+		for route := 0; route < 2; route++ {
+			c := C11ReregCase{Form: form, Route: route}
+			r.Case(fmt.Sprint(form, route), true, c)
+			if err := checkC11Rereg(c); err != nil {
+				r.FailEnum(t, "C11.rereg", c, err)
+			}
+		}
+	}
+}
+
+func init() { reg("C11.rereg", checkC11Rereg) }
